@@ -69,7 +69,10 @@ void GammaDiscreteDistribution::fireParameterChanged(const ParameterList& parame
   alpha_ = getParameterValue("alpha");
   beta_ = getParameterValue("beta");
   if (hasParameter("offset"))
+  {
     offset_ = getParameterValue("offset");
+    intMinMax_->setLowerBound(offset_, true);
+  }
   ga1_ = exp(RandomTools::lnGamma(alpha_ + 1) - RandomTools::lnGamma(alpha_));
 
   discretize();
